@@ -168,7 +168,7 @@ def run_case(case, acc):
 
 def gen_case(rng, max_days):
     cfg = sesswl.gen_cfg(rng, alpha_kinds=('fixed', 'single', 'topn_mom', 'sma_trend', 'inv_vol', 'mom_sign'),
-                         universe_kinds=('static', 'dynamic'), max_days=max_days, full_data=False)
+                         universe_kinds=('static', 'dynamic'), max_days=max_days, full_data=False, nan_cells='any')
     d0 = dt.date.fromisoformat(cfg['start'][:10])
     d1 = dt.date.fromisoformat(cfg['end'][:10])
     n = (d1 - d0).days
@@ -288,8 +288,16 @@ def run_c18_case(case, acc):
     cfg = case['cfg']
     rng = random.Random(case.get('seed', 0))
     try:
+        # (d) first an unrelated session on a DIFFERENT market with the same tickers and dates, from separate objects:
+        # whatever it leaves behind in this process must not reach the runs below (they are compared with fresh
+        # interpreters that never saw it)
+        other = json.loads(json.dumps(cfg))
+        other['market']['seed'] = cfg['market']['seed'] + 7919
+        other['market']['adjust'] = not cfg['market']['adjust']
+        other['market']['ratio'] = {k: 0.5 for k in cfg['market']['ratio']}
+        one_digest(other)
         d1, r1, tr1 = one_digest(cfg)
-        acc.count('C18:runs')
+        acc.count('C18:runs', 2)
         acc.count('C18:fills_in_reference_run', len(r1['fills']))
         # (a) same process, fresh objects
         d2, r2, _ = one_digest(cfg)
@@ -324,6 +332,16 @@ def run_c18_case(case, acc):
         scratch = tempfile.mkdtemp(prefix='qsmon-c18-')
         try:
             digs = {}
+            own = os.environ.get('PYTHONHASHSEED', '0')
+            out = subprocess_digest(cfg, own, scratch)
+            acc.count('C18:fresh_interpreter_runs')
+            if out['digest'] != d1:
+                k, i, x, y = first_difference(r1, out['results'])
+                raise Violation('C18', 'after-unrelated-session/%s' % k,
+                                'this process (which ran an unrelated session on another market with the same tickers '
+                                'before) differs from a fresh interpreter with the SAME hash seed at %s #%d: %s vs %s'
+                                % (k, i, x, y), {'mode': 'after-unrelated-session'})
+            acc.count('C18:after_unrelated_session_pairs')
             for hs in case['hashseeds']:
                 out = subprocess_digest(cfg, hs, scratch)
                 digs[hs] = out
